@@ -36,6 +36,7 @@ type Recv struct {
 	Layout string `json:"layout"`
 	Stored string `json:"stored"`
 	Shares string `json:"shares"`
+	Pos    string `json:"pos"`    // position of the receiver in the keypers list of its sets: "first" | "middle" | "last"
 	EonKey string `json:"eonkey"` // key material of the newest successful DKG of every set: "main" | "other"
 }
 
@@ -49,7 +50,7 @@ type Case struct {
 
 func (c Case) Key() string {
 	return fmt.Sprintf("%s|%s|%v%v%v%v|%s|%d|%v|%s|%s|%s|%s", c.Fl, c.M.Mt, c.M.TopicOk, c.M.TypeOk, c.M.VersionOk, c.M.InstOk, c.M.Set, c.M.Snd,
-		c.M.Entries, c.M.Extra, c.Recv.Layout, c.Recv.Stored, c.Recv.Shares+"/"+c.Recv.EonKey+"/"+c.Hist)
+		c.M.Entries, c.M.Extra, c.Recv.Layout, c.Recv.Stored, c.Recv.Shares+"/"+c.Recv.EonKey+"/"+c.Recv.Pos+"/"+c.Hist)
 }
 
 // Concrete is a case made concrete: the identities behind the ranks and, when the case comes
